@@ -16,5 +16,5 @@ for c in $CHECKS; do
   first=$(grep "impl-oracle\|model-disagreement\|proof-broken\|harness-broken" $OUT/check_$c.err | head -1 | cut -c1-200)
   echo "BENIGN $ID check=$c exit=$rc violations=$v :: $first"
 done
-git -C /repo checkout -- .
+git -C /repo checkout -- . && git -C /repo clean -fdq src
 python3 /verif/tools/gen_tables.py /repo /verif/lean/CC/Generated > /dev/null
